@@ -183,6 +183,8 @@ def _mk_ew():
         'tanh': U(lambda x: X.div(X.add(X.fn('exp', x), X.neg(X.fn('exp', X.neg(x)))), X.add(X.fn('exp', x), X.fn('exp', X.neg(x))))),
         'angle': U(lambda x: X.fn('atan2', X.fn('imag', x), X.fn('real', x))),
         # finite inputs: these hand the value back
+        # reduced-precision casts keep the real value (the loss of digits is reported by the precision lints, not here)
+        'float32': U(lambda x: x), 'float16': U(lambda x: x), 'single': U(lambda x: x), 'half': U(lambda x: x), 'complex64': U(lambda x: x), 'csingle': U(lambda x: x),
         'nan_to_num': U(lambda x: x), 'real_if_close': U(lambda x: x), 'asfarray': U(lambda x: x), 'float_': U(lambda x: x), 'double': U(lambda x: x), 'longdouble': U(lambda x: x),
         'heaviside': (lambda it, a, e, fr: X.add(X.cmp('>', a[0], X.ZERO), X.mul(a[1], X.cmp('==', a[0], X.ZERO))) if len(a) == 2 else NotImplemented),
     }
